@@ -149,7 +149,8 @@ def eval_src(rp):
         if oc.min() < 0 or oc.max() > 1 + 1e-12:
             return '%s leaves [0, 1]' % name, '%s:range' % name, coq
         if np.abs(oc - A / (tot + EPS)).max() > TOL:
-            return '%s differs from power / (sum over sources + eps)' % name, '%s:formula' % name, coq
+            return ('%s differs from %s / (sum over sources + eps)'
+                    % (name, 'pooled power' if name == 'wiener' else 'magnitude')), '%s:formula' % name, coq
         if np.abs(oc.sum(0) - tot / (tot + EPS)).max() > TOL:
             return '%s does not sum to P/(P+eps) over the sources' % name, '%s:sum' % name, coq
     else:
@@ -290,9 +291,13 @@ def eval_quantile(rp):
         mg = np.abs(xg)
         if not np.all((og == hi) | (og == lo)):
             return 'quantile_mask levels are not 0.5 +/- weight/2', 'quantile_mask:levels', None, True
-        thr = np.quantile(mg, 1 - qq if qq >= 0 else abs(qq), axis=-1, keepdims=True)
+        pq = 1 - qq if qq >= 0 else abs(qq)
+        thr = np.quantile(mg, pq, axis=-1, keepdims=True)
+        thr2 = np.percentile(mg, pq * 100, axis=-1, keepdims=True)
         want = (mg > thr) if qq >= 0 else (mg < thr)
-        near = np.abs(mg - thr) <= 1e-12 * np.maximum(thr, 1e-300)        # decided by rounding of the threshold
+        # a point within rounding of the threshold is decided by the rounding of the threshold -- unless the
+        # threshold IS that point (the quantile falls on an order statistic): then the comparison is strict
+        near = (np.abs(mg - thr) <= 1e-12 * np.maximum(thr, 1e-300)) & ~((mg == thr) & (thr == thr2))
         bad = ((og == hi) != want) & ~near
         if bad.any():
             return ('quantile_mask (quantile %g): high level is not exactly the set %s the %s quantile of the magnitudes'
